@@ -204,11 +204,20 @@ namespace igris
                 new (&_data[i]) T{};
             }
 
+            for (size_t i = newsize; i < m_size; ++i)
+            {
+                reinterpret_cast<T *>(&_data[i])->~T();
+            }
+
             m_size = newsize;
         }
 
         void clear()
         {
+            for (std::size_t pos = 0; pos < m_size; ++pos)
+            {
+                reinterpret_cast<T *>(&_data[pos])->~T();
+            }
             m_size = 0;
         }
     };
